@@ -94,9 +94,8 @@ def drivers_only(ctx):
         r = vlib.xv("chunker", env=CONFIGS[cfg], mode="scn", seed=ctx.seed, out=t, **{"in": sp})
         add_counts(counts, r)
         validate(ctx, t, "gen-" + cfg)
-    plan = [("t128d1", "random", 50 * k), ("t128d1", "classes", 40 * k), ("t128", "random", 12 * k), ("t256d2m4", "classes", 30 * k),
-            ("t1024", "random", 40 * k), ("t1024", "classes", 40 * k), ("t8192", "random", 25 * k), ("t8192", "classes", 20 * k),
-            ("t65536", "random", 12 * k), ("t65536x", "classes", 12 * k)]
+    plan = [("t128d1", "mixed", 90 * k), ("t128", "random", 12 * k), ("t256d2m4", "classes", 30 * k), ("t1024", "mixed", 80 * k),
+            ("t8192", "mixed", 44 * k), ("t65536", "random", 12 * k), ("t65536x", "classes", 12 * k)]
     for i, (cfg, mode, n) in enumerate(plan):
         t = os.path.join(w, "%s_%s.ndjson" % (cfg, mode))
         r = vlib.xv("chunker", env=CONFIGS[cfg], mode=mode, n=n, seed=ctx.seed + 1000 * i, out=t)
@@ -108,7 +107,7 @@ def drivers_only(ctx):
             ctx.sample({"config": CONFIGS[cfg], "recorded_trace_prefix": r["sample"][:8]})
         validate(ctx, t, "%s-%s" % (cfg, mode))
         # the production-size skip branch: a boundary inside the first hashed bytes after min-64-1 was really seen
-        if cfg in ("t1024", "t8192", "t65536x") and mode == "classes" and r["counts"].get("chunks_in_window", 0) == 0:
+        if cfg in ("t1024", "t8192", "t65536x") and mode != "random" and r["counts"].get("chunks_in_window", 0) == 0:
             raise vlib.ToolError("vacuity: no chunk shorter than the minimum at %s (skip-ahead window never hit)" % cfg)
     ctx.notes["event_counts"] = counts
     ctx.notes["configurations"] = per_cfg
